@@ -91,6 +91,17 @@ def one_exchange(ctx, code: str, salt: bytes, a: int, b: int, tag: str) -> None:
     if not ok:
         ctx.violation("genuine-accessory-proof-rejected", f"[{tag}] client rejected the correct M2 (leading byte {M2[0]:02x})", replay)
         return
+    # the integer flavour of the same API (SrpClient.verify_servers_proof): same verdicts
+    try:
+        if not cl.verify_servers_proof(int.from_bytes(M2, "big")):
+            ctx.violation("genuine-accessory-proof-rejected", f"[{tag}] verify_servers_proof(int) rejected the correct M2", replay)
+            return
+        if cl.verify_servers_proof(int.from_bytes(M2, "big") ^ 1) or cl.verify_servers_proof(0):
+            ctx.violation("corrupted-accessory-proof-accepted", f"[{tag}] verify_servers_proof(int) accepted a wrong proof", replay)
+            return
+    except Exception as ex:  # noqa: BLE001
+        ctx.violation(f"verify-raises-{type(ex).__name__}", f"[{tag}] verify_servers_proof(int): {ex!r}", replay)
+        return
     ctx.count("exchanges_compared")
     # classes actually observed
     padS = grp.pad(srv.S)
